@@ -457,7 +457,7 @@ func init() {
 			if !ok || sep == "" {
 				it.unsup("Cut symbolic sep")
 			}
-			s := a[0].(*StrV).norm()
+			s := it.flattenLine(a[0].(*StrV), sep).norm()
 			before := &StrV{}
 			for i, at := range s.A {
 				if at.Sym != "" {
@@ -516,6 +516,37 @@ func init() {
 				it.raceAccessAt(Ptr{o: p.arr}, false, it.curPos)
 			}
 			return it.convert(p, types.NewSlice(types.Typ[types.Uint8]), types.Typ[types.String])
+		},
+		"strings.SplitN": func(it *Interp, a []Value) Value {
+			sep, ok := a[1].(*StrV).isConc()
+			n, ok2 := a[2].(int64)
+			if !ok || !ok2 || sep == "" {
+				it.unsup("SplitN with symbolic separator or count")
+			}
+			s := it.flattenLine(a[0].(*StrV), sep)
+			parts := it.strSplit(s, sep)
+			if n == 0 {
+				return SliceV{ln: int64(0)}
+			}
+			if n > 0 && int64(len(parts)) > n {
+				rest := &StrV{}
+				for i := int(n) - 1; i < len(parts); i++ {
+					if i > int(n)-1 {
+						rest.A = append(rest.A, Atom{Lit: sep})
+					}
+					rest.A = append(rest.A, parts[i].A...)
+				}
+				parts = append(parts[:n-1:n-1], rest.norm())
+			}
+			return it.strSlice(parts)
+		},
+		"strings.Count": func(it *Interp, a []Value) Value {
+			sep, ok := a[1].(*StrV).isConc()
+			if !ok || sep == "" {
+				it.unsup("Count with symbolic or empty separator")
+			}
+			s := it.flattenLine(a[0].(*StrV), sep)
+			return int64(len(it.strSplit(s, sep)) - 1)
 		},
 		"strings.TrimPrefix": func(it *Interp, a []Value) Value {
 			pre, ok := a[1].(*StrV).isConc()
@@ -792,4 +823,51 @@ func (it *Interp) deepCopy(v Value, seen map[*Obj]*Obj) Value {
 		return n
 	}
 	return v
+}
+
+// flattenLine: a structured line (lead-ws ++ f0 sep f1 ... ++ trail-ws) whose field count is symbolic becomes an
+// ordinary concatenation of atoms once the count is fixed: the count is case-split (one decision), so that
+// operations that need the shape (SplitN, Cut, Count) are exact.
+func (it *Interp) flattenLine(s *StrV, sep string) *StrV {
+	n := s.norm()
+	has := false
+	for _, a := range n.A {
+		if a.Line != nil {
+			has = true
+		}
+	}
+	if !has {
+		return n
+	}
+	out := &StrV{}
+	for _, a := range n.A {
+		if a.Line == nil {
+			out.A = append(out.A, a)
+			continue
+		}
+		l := a.Line
+		if !l.Trimmed || l.Sep != sep {
+			it.unsup("operation on an untrimmed structured line / other separator")
+		}
+		k := len(l.Fields)
+		if ns, ok := l.N.(*Sym); ok {
+			k = 0
+			for c := 1; c <= len(l.Fields); c++ {
+				if it.branch(&Sym{T: "(= " + ns.T + " " + bvLit(int64(c), 64) + ")", S: "Bool"}, "line-fields") {
+					k = c
+					break
+				}
+			}
+			if k == 0 {
+				panic(infeasible{})
+			}
+		}
+		for i := 0; i < k; i++ {
+			if i > 0 {
+				out.A = append(out.A, Atom{Lit: sep})
+			}
+			out.A = append(out.A, Atom{Sym: l.Fields[i], NoSep: sep})
+		}
+	}
+	return out
 }
